@@ -194,7 +194,7 @@ def replay(g, walks, make_driver, workdir, nproc=16):
     n = len(walks)
     if n == 0:
         return 0, []
-    nproc = max(1, min(nproc, n))
+    nproc = max(1, min(nproc, n, tlc.NPROC))
     # interleave so that each worker gets short and long walks
     chunks = [list(range(i, n, nproc)) for i in range(nproc)]
     if nproc == 1:
